@@ -172,6 +172,10 @@ func runReport(prop string, t *simrt.Tape, keep bool) simrt.Outcome {
 			ts = base.Add(time.Duration(t.Choose(100)) * time.Hour)
 		}
 		code := []uint16{200, 200, 200, 204, 301, 399, 400, 404, 500, 503, 0, 100, 199, 599}[t.Choose(14)]
+		if t.Prob(1, 12) {
+			// any uint16 is a status code as far as the encodings and the report go
+			code = []uint16{2, 20, 39, 40, 1999, 2000, 3999, 4000, 20000, 39999, 65535}[t.Choose(11)]
+		}
 		e := ""
 		if code < 200 || code >= 400 {
 			e = errTexts[2+t.Choose(4)]
@@ -234,6 +238,7 @@ func runReport(prop string, t *simrt.Tape, keep bool) simrt.Outcome {
 		var m vegeta.Metrics
 		m.Histogram = &vegeta.Histogram{Buckets: append(vegeta.Buckets(nil), bounds...)}
 		ticks := 0
+		r.heldJSON, r.heldJSONCopy = nil, nil
 		// the report command builds its reporter once and calls it at every tick and again after the last record
 		r.repHDR = false
 		switch t.Choose(4) {
@@ -267,6 +272,17 @@ func runReport(prop string, t *simrt.Tape, keep bool) simrt.Outcome {
 						r.stats["fault.tick-before-first-record"]++
 					}
 					checkTick(r, &m, rs, order[:i], bounds)
+					if i > 0 && r.viol == nil && t.Prob(1, 3) {
+						// a caller polling one percentile through the exported API between additions
+						q := []float64{0.5, 0.9, 0.99}[t.Choose(3)]
+						sub := make([]int64, 0, i)
+						for _, k := range order[:i] {
+							sub = append(sub, int64(rs[k].Latency))
+						}
+						sort.Slice(sub, func(a, b int) bool { return sub[a] < sub[b] })
+						checkRank(r, sub, q, m.Latencies.Quantile(q), fmt.Sprintf("Quantile(%v)", q), "poll", r.shape)
+						r.stats["fault.quantile-polled-between-additions"]++
+					}
 				}
 				if i < n {
 					m.Add(&rs[order[i]])
@@ -626,6 +642,12 @@ func checkHistogram(r *run, h *vegeta.Histogram, rs []vegeta.Result, added []int
 		r.fail("C12", "C12.json-error", tags, "MarshalJSON: %v", err)
 		return
 	}
+	// a rendering handed out earlier stays what it was while the histogram goes on counting and is rendered again
+	if r.heldJSON != nil && !bytes.Equal(r.heldJSON, r.heldJSONCopy) {
+		r.fail("C12", "C12.json-rendering-changed", tags, "a JSON rendering returned earlier read %s when it was returned and reads %s after %d more results and another rendering", r.heldJSONCopy, r.heldJSON, count)
+		return
+	}
+	r.heldJSON, r.heldJSONCopy = js, append([]byte(nil), js...)
 	dec := json.NewDecoder(bytes.NewReader(js))
 	tok, _ := dec.Token()
 	if d, ok := tok.(json.Delim); !ok || d != '{' {
